@@ -122,6 +122,8 @@ class Translator:
             return Val("b", self.compare(n.ops[0], a, b))
         if isinstance(n, ast.Call):
             fn = ast.unparse(n.func)
+            if fn == "len" and ast.unparse(n.args[0]) == "self.values" and "num" in self.fields:
+                return Val("i", self.fields["num"])
             args = [self.expr(x, env, modname) for x in n.args]
             if fn == "math.isnan":
                 return Val("b", f"(fp.isNaN {self.asf(args[0])})")
